@@ -1250,7 +1250,8 @@ def c19(res, tier, seed, lib):
           ("one-paren", "(", 1), ("two-parens", "((", 1), ("garbage", "garbage", 1), ("empty", "", 1),
           ("nan", "({'color': <(nan, inf, -1)>},)", None), ("huge", "({'color': <(1e308, 1e308, 1e308)>},)", None),
           ("neg-inf", "({'color': <(-inf, 0.0, 0.0)>},)", None), ("neg-overflow", "({'color': <(-1e999, 0.0, 0.0)>},)", None),
-          ("neg-nan", "({'color': <(0.0, -nan, 0.0)>},)", None),
+          ("neg-nan", "({'color': <(0.0, -nan, 0.0)>},)", None), ("neg-1e307", "({'color': <(-1e307, 0.0, 0.0)>},)", None),
+          ("pos-1e307", "({'color': <(0.0, 1e307, 0.0)>},)", None),
           ("words", "({'color': <(a, b, c)>},)", 1), ("five", "((1,2,3,4,5", 1), ("exact-3-no-close", "((0.1,0.2,0.3", 0)]
     d = tempfile.mkdtemp(prefix="pv-picker-", dir=BUILD)
     try:
